@@ -15,6 +15,9 @@ D = decimal.Decimal
 ASSUMPTIONS = [
     'regular-expression match is modelled for literal (metacharacter-free ASCII) patterns only: case-insensitive substring search',
     'Decimal arithmetic modelled for finite values at precision 28 ROUND_HALF_EVEN (bit-exact on as_tuple); no NaN/Infinity',
+    'library functions (Eval.apply_func clauses calling Model/Dates.v / Model/StrFuncs.v): C18\'s assumptions apply - ASCII strings for '
+    'int(str) / date(str) / case folding, dates within date.min..date.max; C01_library_source_* additionally trust the PyMini semantics '
+    'and the library primitives of Model/PrimsEnv.v (see C18)',
     'the generator resolves operator overloads itself from its own typing of the expression (independent of the compiler)',
     'translator tie (C01_source_row_loop): the WHERE condition and the target expressions are opaque callables assumed to behave as the model expressions on every row of the table (C01_source_* for the node classes) and not to raise (C04); query.table yields one context object per row, in order (prim attr:table)',
 ]
